@@ -25,7 +25,6 @@ import (
 	"encoding/hex"
 	"encoding/json"
 	"fmt"
-	"os"
 	"strings"
 
 	"github.com/apmckinlay/gsuneido/util/ascii"
@@ -175,9 +174,6 @@ func checkTr(c *lib.Ctx, src, from, to string) bool {
 			// (empty) ranges followed by a literal ^, so that its expansion
 			// begins with ^ - which Replace then takes as the negation marker
 			class = "tr-expanded-from-starts-with-caret"
-		}
-		if class != "" && os.Getenv("C38_DEV_DROP_CLASSIFIED") != "" { // TEMPORARY
-			return false
 		}
 		c.Fail(class, kase{Kind: "tr", Args: hx(src, from, to)}, "%q.Tr(%q, %q) = %q, reference gives %q", src, from, to, got, want)
 		return false
